@@ -16,7 +16,8 @@ Inductive cop :=
 | PRefRemove (j : nat)
 | PSep (b : bool)
 | PNewline
-| PComment (c : string).
+| PComment (c : string)
+| PReformat.                     (* view.reformat_when_finished(): the write-back goes through the formatter *)
 
 (** what the implementation did on one operation *)
 Inductive oobs :=
@@ -58,6 +59,46 @@ Definition op_of (o : cop) : op :=
   | PSep b => OSep b
   | PNewline => ONewline
   | PComment c => OComment (dec c)
+  (* a reformat request is not an operation of the model ([model_ops] drops it); this image is only
+     used by the walk of [holds], which looks at [aop_of] / [silent] / [may_fail] / [is_comment_op] of
+     an operation and nothing else: like append_separator, the request does not concern the values
+     (AOther), is not a mere read, must not be refused and appends no comment *)
+  | PReformat => OSep false
+  end.
+
+Definition is_reformat (o : cop) : bool := match o with PReformat => true | _ => false end.
+
+(** the session asked for reformatting (at any point: the flag is never taken back by the operations
+    driven here) *)
+Definition reformatting (ops : list cop) : bool := existsb is_reformat ops.
+
+(** the operations the model runs *)
+Definition model_ops (ops : list cop) : list op :=
+  map op_of (filter (fun o => negb (is_reformat o)) ops).
+
+(** reformat_when_finished() sets _changed: the write-back happens also without an edit.  Otherwise
+    this is [run_session]. *)
+Definition run_session_r (reformat : bool) (k : lkind) (name value : str) (os : list op) : session_result :=
+  match interpret k value with
+  | Err e => SR (Err e) [] None value
+  | Ok vw =>
+      let (outs, vf) := run_ops k os vw in
+      let (ce, v') := close name value (if reformat then set_changed vf else vf) in
+      SR (Ok (view_values vw)) outs ce v'
+  end.
+
+(** the model's outcomes with the reformat requests put back: such a request succeeds and leaves
+    list(view) as it was *)
+Fixpoint expand (ops : list cop) (outs : list outcome) (cur : list str) : list outcome :=
+  match ops with
+  | [] => outs
+  | o :: ops' =>
+      if is_reformat o then Done cur None :: expand ops' outs cur
+      else match outs with
+           | [] => []
+           | (Done vals g as x) :: outs' => x :: expand ops' outs' vals
+           | (Failed e as x) :: outs' => x :: expand ops' outs' cur
+           end
   end.
 
 Definition res_strs (r : result (list string)) : result (list str) :=
@@ -90,11 +131,21 @@ Definition agree (c : case) : bool :=
   match c with
   | CView comma pre name value post ops o_read o_ops o_close o_dump o_valid o_reread o_again =>
       let k := lk comma in
-      let r := run_session k (dec name) (dec value) (map op_of ops) in
+      let rf := reformatting ops in
+      let r := run_session_r rf k (dec name) (dec value) (model_ops ops) in
+      let dump := dec o_dump in
       result_eqb strs_eqb (sr_read r) (res_strs o_read)
-      && list_eqb2 outcome_eqb (sr_ops r) o_ops
+      && list_eqb2 outcome_eqb
+           (match sr_read r with Ok l => expand ops (sr_ops r) l | Err _ => sr_ops r end) o_ops
       && option_eqb err_eqb (sr_close r) o_close
-      && str_eqb (doc_of (dec pre) (dec name) (sr_value r) (dec post)) (dec o_dump)
+      && (if rf && match sr_close r with None => true | Some _ => false end
+          then
+            (* a reformatted write-back: everything but the layout of the edited field - the text
+               before and after it is compared, its own text is not (its reading is, below) *)
+            startswith (dec pre ++ dec name ++ [COLON]) dump
+            && endswith (dec post) dump
+            && (length (dec pre) + length (dec name) + 1 + length (dec post) <=? length dump)%nat
+          else str_eqb (doc_of (dec pre) (dec name) (sr_value r) (dec post)) dump)
       && result_eqb strs_eqb (read_of k (sr_value r)) (res_strs o_reread)
       && result_eqb strs_eqb (read_of k (sr_value r)) (res_strs o_again)
   | CTok comma v out =>
